@@ -51,6 +51,7 @@ add("prune-wrong-key","C19","object_validator.go","\t\t\t\tres.mergeForField(dat
 add("nil-operand-ends-merge","C20","result.go","func (r *Result) MergeAsWarnings(others ...*Result) *Result {\n\tfor _, other := range others {\n\t\tif other != nil {","func (r *Result) MergeAsWarnings(others ...*Result) *Result {\n\tfor _, other := range others {\n\t\tif other == nil {\n\t\t\treturn r\n\t\t}\n\t\tif other != nil {","RESULT-ALGEBRA:(*Result).MergeAsWarnings:all-operands")
 # C09
 add("tuple-members-share-path","C09","example_validator.go",'fmt.Sprintf("%s.items[%d].example", path, i)','path+".items.example"',"TRAVERSE:exampleValidator.validateExampleValueSchemaAgainstSchema:recursion:Items.Schemas:path")
+add("visited-set-shared-by-definitions","C09","default_validator.go","\t\t\td.resetVisited()\n\n\t\t\t// validation lazily expands","\t\t\t// validation lazily expands","RESET-BETWEEN:(*defaultValidator).validateDefaultValueValidAgainstSchema", quick=False)
 # C01
 add("keyword-dropped","C01","schema.go","\t\ts.Schema.UniqueItems,\n","\t\tfalse,\n","KEYWORDS:SchemaValidator:UniqueItems")
 json.dump(C, open('/verif/tables/controls.json','w'), indent=1)
